@@ -43,6 +43,10 @@ pub fn main(args: &[String]) -> i32 {
             }
             match b.build(dest) { Ok(()) => 0, Err(e) => { println!("ERR {e}"); 1 } }
         }
+        Some("readable") => {
+            // does the library read this one member? (C20: which inputs a sub-command "cannot do")
+            match Archive::open(&args[1]).and_then(|mut a| a.read_file(&args[2])) { Ok(_) => 0, Err(_) => 1 }
+        }
         Some("list") => {
             // the library's view of an archive: sorted names and sizes
             let r = (|| -> wow_mpq::Result<Vec<String>> { let mut a = Archive::open(&args[1])?; let mut v: Vec<String> = a.list()?.into_iter().map(|e| format!("{}\t{}", e.name, e.size)).collect(); v.sort(); Ok(v) })();
@@ -60,8 +64,13 @@ pub fn main(args: &[String]) -> i32 {
                 "wdl" => { let mut f = wow_wdl::types::WdlFile::with_version(wow_wdl::version::WdlVersion::Wotlk);
                     f.heightmap_tiles.insert((1, 2), wow_wdl::types::HeightMapTile::new());
                     let mut c = std::io::Cursor::new(Vec::new()); let _ = wow_wdl::parser::WdlParser::with_version(wow_wdl::version::WdlVersion::Wotlk).write(&mut c, &f); c.into_inner() }
+                "adt" => wow_adt::builder::AdtBuilder::new().with_version(wow_adt::AdtVersion::WotLK).add_texture("tileset/a.blp").build().and_then(|x| x.to_bytes()).unwrap_or_default(),
+                "wmo" => { let mut rng = crate::common::Rng::new(3); let mut out = vec![]; for _ in 0..20 { let r = crate::c15::gen_root(&mut rng, wow_wmo::WmoVersion::Wotlk, false); if r.groups.is_empty() || r.materials.is_empty() { continue; } let mut c = std::io::Cursor::new(Vec::new()); if wow_wmo::WmoWriter::new().write_root(&mut c, &r, wow_wmo::WmoVersion::Wotlk).is_ok() { out = c.into_inner(); break; } } out }
+                "m2" => { let mut rng = crate::common::Rng::new(4); let (m, _) = crate::c13::gen_model(&mut rng, wow_m2::M2Version::WotLK); let mut c = std::io::Cursor::new(Vec::new()); let _ = m.write(&mut c); c.into_inner() }
+                "blp" => { let mut rng = crate::common::Rng::new(5); crate::c16::sample_blps(&mut rng).into_iter().next().map(|x| x.1).unwrap_or_default() }
                 _ => return 2,
             };
+            if bytes.is_empty() { return 1; }
             match std::fs::write(path, bytes) { Ok(()) => 0, Err(_) => 1 }
         }
         Some("parse") => {
@@ -73,6 +82,10 @@ pub fn main(args: &[String]) -> i32 {
                 "wdt" => wow_wdt::WdtReader::new(std::io::Cursor::new(&data), wow_wdt::version::WowVersion::WotLK).read().is_ok(),
                 "wdl" => wow_wdl::parser::WdlParser::new().parse(&mut std::io::Cursor::new(&data)).is_ok(),
                 "mpq" => Archive::open(path).is_ok(),
+                "adt" => wow_adt::parse_adt(&mut std::io::Cursor::new(&data)).is_ok(),
+                "wmo" => wow_wmo::parse_wmo(&mut std::io::Cursor::new(&data)).is_ok(),
+                "m2" => wow_m2::M2Model::parse(&mut std::io::Cursor::new(&data)).is_ok() || wow_m2::parse_m2(&mut std::io::Cursor::new(&data)).is_ok(),
+                "blp" => wow_blp::parser::parse_blp(&data).is_ok(),
                 _ => false,
             }).unwrap_or(false);
             if ok { println!("parses"); 0 } else { println!("rejects"); 1 }
